@@ -455,7 +455,11 @@ def run(ctx):
                 'after every operation; conversion rules also with shared registries (every model between its own pair of dimensions, '
                 'registered twice in half of the cases: a conversion that worked must keep working); conversion of a variable into '
                 'the unit another model calls by the same name; (c) 2-3 API-built models per process repaired one after another '
-                '(numbers of one model must not belong to another model\'s registry); non-trivial = at least 6 operations')
+                '(numbers of one model must not belong to another model\'s registry), every third case twin models with identical names '
+                'whose singular point depends on another state; definitions mentioning another store\'s registry names; the same '
+                'new base-unit name in two stores; with separate registries the operations of every model are REPLAYED on a fresh '
+                'identical model after all the other work and must give the same variables, units, ids and roles (nothing '
+                'process-wide may have moved); non-trivial = at least 6 operations')
     ctx.trusted += ['Python-level sharing (class attributes, caches, module state) is outside the functional model: decided by the '
                     'interleaving oracle only']
     cases = load_corpus('stores') + [gen_store_case(ctx.seed * 100000 + i) for i in range(ns)]
